@@ -62,6 +62,7 @@ class ClassInfo:
     module: Module
     node: ast.ClassDef
     methods: dict = field(default_factory=dict)       # name -> FuncInfo
+    setters: dict = field(default_factory=dict)       # property name -> FuncInfo of its `@<name>.setter`
     assigns: dict = field(default_factory=dict)       # class-level name -> value expr
     annots: dict = field(default_factory=dict)        # class-level name -> annotation expr
     bases: list = field(default_factory=list)         # base simple names
@@ -173,6 +174,12 @@ class Project:
                             fi.inherited_from = bc
                             ci.methods[mname] = fi
                             self.all_funcs.append(fi)
+                    for sname, bs in bc.setters.items():
+                        if sname not in ci.setters:
+                            fi = FuncInfo(f"{ci.name}.{sname}.setter", bs.module, bs.node, ci)
+                            fi.inherited_from = bc
+                            ci.setters[sname] = fi
+                            self.all_funcs.append(fi)
                     for k, v in bc.assigns.items():
                         ci.assigns.setdefault(k, v)
                     for k, v in bc.annots.items():
@@ -222,6 +229,15 @@ class Project:
                     ci.bases.append(b.value.id)
             for s in st.body:
                 if isinstance(s, ast.FunctionDef):
+                    acc = next((d.attr for d in s.decorator_list if isinstance(d, ast.Attribute) and d.attr in ("setter", "deleter", "getter")
+                                and isinstance(d.value, ast.Name) and d.value.id == s.name), None)
+                    if acc in ("setter", "deleter"):
+                        # `@x.setter def x(self, v)`: the property keeps its getter under the name; the setter is filed apart
+                        fi = FuncInfo(f"{st.name}.{s.name}.{acc}", m, s, ci)
+                        if acc == "setter":
+                            ci.setters[s.name] = fi
+                        self.all_funcs.append(fi)
+                        continue
                     fi = FuncInfo(f"{st.name}.{s.name}", m, s, ci)
                     ci.methods[s.name] = fi
                     self.all_funcs.append(fi)
